@@ -85,10 +85,22 @@ def run_kani_job(unit, job, workdir):
                'failed': [r['harness'] for r in bad], 'undecided': [r['harness'] + ':' + r['status'] for r in und],
                'wall_s': round(sum(r['wall'] for r in results), 1)}
     if bad:
+        # ask Kani for the failing input of the first failed harness (concrete playback) — replayed on the extracted code by
+        # the generated unit test text, which is put into the replay file
+        try:
+            r2 = kani(d, bad[0]['harness'], job.get('timeout', 300), ['-Z', 'concrete-playback', '--concrete-playback=print'])
+            m = re.search(r'Concrete playback unit test for `[^`]*`:\n```\n(.*?)```', r2.get('out', ''), re.S)
+            if m is None:
+                # kani() trims output of successful runs only; failed runs keep the tail
+                m = re.search(r'(#\[test\]\nfn kani_concrete_playback.*?\n\})', r2.get('out', ''), re.S)
+            if m:
+                job['_cex'] = 'harness %s (subject string and assertions: see the harness in the generated crate)\n%s' % (bad[0]['harness'], m.group(1))
+        except Exception:
+            pass
         expected = set(job.get('expected_failures', []))
         only_expected = bool(expected) and all(r['harness'] in expected for r in bad)
         return {'status': 'failed', 'detail': '\n\n'.join(r['harness'] + '\n' + r['out'] for r in bad), 'summary': summary,
-                'only_expected': only_expected, 'cex': job.get('cex_of', lambda rs: None)(bad)}
+                'only_expected': only_expected, 'cex': job.get('_cex')}
     if und:
         return {'status': 'undecided', 'detail': '; '.join(r['harness'] + ':' + r['status'] + ' ' + r['out'][-300:] for r in und), 'summary': summary}
     return {'status': 'ok', 'detail': '', 'summary': summary}
